@@ -7,17 +7,23 @@ PROPS = {
         "runs": {
             "quick": [{"harness": "rectil", "args": ["--scope", "pairs", "--g", 5]},
                       {"harness": "rectil", "args": ["--scope", "triples", "--g", 4, "--sp_lo", 1, "--sp_hi", 1]},
-                      {"harness": "rectil", "args": ["--scope", "walks", "--g", 4, "--nmax", 5, "--sp_lo", 1, "--sp_hi", 1]}],
+                      {"harness": "rectil", "args": ["--scope", "walks", "--g", 4, "--nmax", 5, "--sp_lo", 1, "--sp_hi", 1]},
+                      {"harness": "rectil", "args": ["--scope", "cells", "--w", 6, "--h", 5]},
+                      {"harness": "rectil", "args": ["--scope", "cells", "--w", 6, "--h", 5, "--frames", 1]}],
             "thorough": [{"harness": "rectil", "args": ["--scope", "pairs", "--g", 6]},
                          {"harness": "rectil", "args": ["--scope", "triples", "--g", 4]},
                          {"harness": "rectil", "args": ["--scope", "walks", "--g", 4, "--nmax", 6]},
                          {"harness": "rectil", "args": ["--scope", "walks", "--g", 5, "--nmax", 8, "--alt", 1, "--sp_lo", 1, "--sp_hi", 1]},
-                         {"harness": "rectil", "args": ["--scope", "triples", "--g", 5, "--sp_lo", 1, "--sp_hi", 1]}],
+                         {"harness": "rectil", "args": ["--scope", "triples", "--g", 5, "--sp_lo", 1, "--sp_hi", 1]},
+                         {"harness": "rectil", "args": ["--scope", "cells", "--w", 6, "--h", 6]},
+                         {"harness": "rectil", "args": ["--scope", "cells", "--w", 5, "--h", 7]},
+                         {"harness": "rectil", "args": ["--scope", "cells", "--w", 6, "--h", 6, "--frames", 1]},
+                         {"harness": "rectil", "args": ["--scope", "cells", "--w", 7, "--h", 5, "--frames", 1]}],
         },
         "rule": "all rectangle pairs (1 subject, 1 clip) and triples (2 subjects, 1 clip), both orientations, on a g-line lattice; all closed axis-parallel walks (self-overlapping, with collinear and "
-                "zero-width sections) up to n vertices as subject x every rectangle as clip; lattice lines mapped through unit, non-uniform and 2^30-scaled spacings; x 4 clip types x 4 fill rules x PreserveCollinear; "
+                "zero-width sections) up to n vertices as subject x every rectangle as clip; lattice lines mapped through unit, non-uniform and 2^30-scaled spacings; the 'cells' family (a ring of cells round a 6x5 grid, thorough 6x6/5x7/7x5, plus every subset of the interior cells, given as up to 30 rectangles in ten decompositions and in 81 four-bar frames, alone and against the interior square); x 4 clip types x 4 fill rules x PreserveCollinear; "
                 "non-trivial = solution non-empty and different from both inputs",
         "level_text": "Every member of the rectilinear scopes is executed on the real library; the winding number of the solution at every lattice-cell centre, the exact area, the vertex coordinates and the edge directions are compared with the exact cell-coverage model.",
-        "assumptions": ["scopes bounded to lattices of at most 6 lines, at most 3 paths and walks of at most 8 vertices"],
+        "assumptions": ["scopes bounded to lattices of at most 6 lines, at most 3 paths and walks of at most 8 vertices; cells family bounded to 7x5 / 6x6 / 5x7 grids at spacing 4"],
     },
 }
